@@ -165,11 +165,11 @@ def lane(k, queue, lock, done_ids):
             lines[m["line"] - 1] = m["new"]
             open(path, "w").write("\n".join(lines))
             t0 = time.time()
-            rc, out = sh("cargo test --workspace --no-fail-fast --offline 2>&1", cwd=wt, env={"CARGO_TARGET_DIR": tgt}, timeout=900)
+            rc, out = sh("ulimit -v 8000000; exec timeout -k 5 400 cargo test --workspace --no-fail-fast --offline 2>&1", cwd=wt, env={"CARGO_TARGET_DIR": tgt}, timeout=900)
             passed = sum(int(x) for x in re.findall(r"^test result: \w+\. (\d+) passed", out, re.M))
             failed = sum(int(x) for x in re.findall(r"^test result: \w+\. \d+ passed; (\d+) failed", out, re.M))
             res["tests_s"] = round(time.time() - t0, 1)
-            if rc == 124:
+            if rc in (124, 137):
                 res["status"] = "tests-timeout"
             elif "error: could not compile" in out or re.search(r"^error(\[E\d+\])?:", out, re.M) and passed == 0:
                 res["status"] = "stillborn"
@@ -184,7 +184,7 @@ def lane(k, queue, lock, done_ids):
                     if not (p in ("C13", "C18") and ("builtin" in m["file"] or "char_range" in m["file"])):
                         env["LEXVERIF_DEV_SKIP_PROOF"] = "1"
                     t1 = time.time()
-                    rc2, o2 = sh(["bin/vcheck", p, "quick"], cwd=vf, env=env, timeout=1500)
+                    rc2, o2 = sh("ulimit -v 16000000; exec timeout -k 5 1400 bin/vcheck %s quick" % p, cwd=vf, env=env, timeout=1500)
                     v = [l for l in o2.splitlines() if l.startswith("VIOLATION")]
                     res["checks"][p] = {"rc": rc2, "violations": len(v), "nofail": sum("no-failing-input-found" in l for l in v),
                                         "s": round(time.time() - t1, 1)}
